@@ -82,14 +82,14 @@ func replayObligation(eng *Engine, opts CheckOpts, ur *UnitResult, nr *namedResu
 	for _, ev := range ur.Entry {
 		switch ev.Kind {
 		case "len":
-			if v, ok := vals[ev.Term.String()]; ok {
+			if v, ok := vals[strings.ReplaceAll(ev.Term.String(), "|", "")]; ok {
 				if n, ok := smtValueToBig(v); ok {
 					lens[ev.Name] = n.Int64()
 					rp.Model["len("+ev.Name+")"] = n.String()
 				}
 			}
 		case "scalar":
-			if v, ok := vals[ev.Term.String()]; ok {
+			if v, ok := vals[strings.ReplaceAll(ev.Term.String(), "|", "")]; ok {
 				rp.Model[ev.Name] = v
 				if n, ok := smtValueToBig(v); ok {
 					scal[ev.Name] = n
@@ -108,7 +108,7 @@ func replayObligation(eng *Engine, opts CheckOpts, ur *UnitResult, nr *namedResu
 		}
 		buf := make([]byte, n)
 		for i := int64(0); i < n && i < 48; i++ {
-			if v, ok := vals[Select(ev.Arr, IntK(i)).String()]; ok {
+			if v, ok := vals[strings.ReplaceAll(Select(ev.Arr, IntK(i)).String(), "|", "")]; ok {
 				if b, ok := smtValueToBig(v); ok {
 					buf[i] = byte(b.Int64())
 				}
@@ -200,7 +200,7 @@ func buildReplayTest(eng *Engine, ct *Contract, nr *namedResult, lens map[string
 		switch ut := t.Underlying().(type) {
 		case *types.Slice:
 			if _, ok := lens[name]; !ok {
-				return "nil", true // unconstrained in the model
+				return "(" + relType(t) + ")(nil)", true // unconstrained in the model
 			}
 			if isByteType(ut.Elem()) {
 				if bs, ok := bytesOf[name]; ok {
@@ -212,7 +212,7 @@ func buildReplayTest(eng *Engine, ct *Contract, nr *namedResult, lens map[string
 				}
 			}
 			if n, ok := lens[name]; ok && n == 0 {
-				return "nil", true
+				return "(" + relType(t) + ")(nil)", true
 			}
 			if n, ok := lens[name]; ok && n <= 1<<20 {
 				return fmt.Sprintf("make(%s, %d)", relType(t), n), true
